@@ -6,3 +6,40 @@ def flat(xs):
 
 
 SPECFUNS = {'flat': flat, 'len': len}
+
+
+def xormask(d, m):
+    return bytes(b ^ m[i % 4] for i, b in enumerate(d))
+
+
+def chr8(n):
+    return bytes([n])
+
+
+def be16(n):
+    return n.to_bytes(2, 'big')
+
+
+def be64(n):
+    return n.to_bytes(8, 'big')
+
+
+def is_bytes(s):
+    return isinstance(s, (bytes, bytearray))
+
+
+def wsframe(fin, r1, r2, r3, op, masked, key, payload):
+    """RFC 6455 section 5.2, written independently of proxy.py"""
+    n = len(payload)
+    b0 = 128 * bool(fin) + 64 * bool(r1) + 32 * bool(r2) + 16 * bool(r3) + op
+    if n < 126:
+        L, ext = n, b''
+    elif n < 65536:
+        L, ext = 126, be16(n)
+    else:
+        L, ext = 127, be64(n)
+    body = (key + xormask(payload, key)) if masked else payload
+    return bytes([b0, 128 * bool(masked) + L]) + ext + body
+
+
+SPECFUNS.update(xormask=xormask, chr8=chr8, be16=be16, be64=be64, is_bytes=is_bytes, wsframe=wsframe)
